@@ -100,6 +100,33 @@ fn c16_as_pathbuf_parts() {
     std::mem::forget(p);
 }
 
+// @verif prop=C16 tier=quick timeout=600 bounds=name-parts-ending-in-'_'(basename"b_",discriminant"d_"),infix-present/absent
+// The separator rule is positional, not content based: a part that itself ends in '_' still gets its separator ("b_" + "d_" + "r1" -> b__d__r1.l), so that the listing (which expects fixed part + '_' + infix) and the naming agree.
+#[kani::proof]
+#[kani::unwind(14)]
+#[kani::stub(verif_support::reexp::catch_unwind, verif_support::stub_cu)]
+fn c16_as_pathbuf_trailing_underscore() {
+    vs::link_all();
+    let has_d: bool = kani::any();
+    let has_i: bool = kani::any();
+    let spec = mk_spec("b_", if has_d { Some("d_") } else { None }, Some("l"));
+    let p = spec.as_pathbuf(if has_i { Some("r1") } else { None });
+    let mut buf = [0u8; 32];
+    let mut n = 0usize;
+    push(&mut buf, &mut n, b"d/b_");
+    if has_d {
+        push(&mut buf, &mut n, b"_d_");
+    }
+    if has_i {
+        push(&mut buf, &mut n, b"_r1");
+    }
+    push(&mut buf, &mut n, b".l");
+    assert!(bytes_eq(p.as_os_str().as_bytes(), &buf[..n]));
+    kani::cover!(has_d && has_i, "all parts");
+    std::mem::forget(spec);
+    std::mem::forget(p);
+}
+
 // ------------------------------------------------------------------------------------------------
 // C14 / C10: which directory entries does the family filter accept?
 use crate::writers::file_log_writer::verif_harness::{infix_filter_equals, infix_filter_numbers};
